@@ -75,7 +75,7 @@ func (v Undefined) String() string { panic("Attempted to coerce undefined value 
 func (v Null) String() string      { return "null" }
 func (v Bool) String() string      { return strconv.FormatBool(bool(v)) }
 func (v Int) String() string       { return strconv.FormatInt(int64(v), 10) }
-func (v Float) String() string     { return strconv.FormatFloat(float64(v), 'g', -1, 64) }
+func (v Float) String() string     { return formatFloat(float64(v)) }
 func (v String) String() string    { return string(v) }
 
 func (v List) String() string {
@@ -101,6 +101,30 @@ func (v Map) String() string {
 	}
 	sort.Strings(items)
 	return "{" + strings.Join(items, ", ") + "}"
+}
+
+// formatFloat writes the number the way JavaScript's Number.prototype.toString
+// does, so that the html and javascript backends print the same text: plain
+// decimals between 1e-6 and 1e21, exponents without leading zeros otherwise,
+// and no negative zero.
+func formatFloat(f float64) string {
+	switch {
+	case f == 0:
+		return "0"
+	case math.IsNaN(f):
+		return "NaN"
+	case math.IsInf(f, 1):
+		return "Infinity"
+	case math.IsInf(f, -1):
+		return "-Infinity"
+	}
+	if abs := math.Abs(f); abs >= 1e-6 && abs < 1e21 {
+		return strconv.FormatFloat(f, 'f', -1, 64)
+	}
+	var s = strconv.FormatFloat(f, 'e', -1, 64) // e.g. 1.5e-07
+	var e = strings.IndexByte(s, 'e')
+	var exp = strings.TrimLeft(s[e+2:], "0")
+	return s[:e+2] + exp
 }
 
 // Equals ----------
